@@ -7,6 +7,21 @@ from ..poly import Lin
 
 def check(an, rep, tier):
     prog = an.prog
+    # the running candidate matrix is the plain name that is fed back into the
+    # sweep contraction (an einsum operand that is re-bound inside the loop)
+    import ast as _astR
+    _fnR = prog.func('optima.optima_tt_beam')
+    _stored = {}
+    for _n in _astR.walk(_fnR.node):
+        if isinstance(_n, _astR.Name) and isinstance(_n.ctx, _astR.Store):
+            _stored[_n.id] = _stored.get(_n.id, 0) + 1
+    _RUNNING = set()
+    for _n in _astR.walk(_fnR.node):
+        if isinstance(_n, _astR.Call) and \
+                (prog.dotted(_n.func) or '').endswith('einsum'):
+            for _a in _n.args[1:]:
+                if isinstance(_a, _astR.Name) and _stored.get(_a.id, 0) >= 2:
+                    _RUNNING.add(_a.id)
     rep.explanation = decided_split(
         'U-ledger as an identity of linear forms on every return path: '
         'core_stab (Q = G / 2**p, exponent p0 + p; below the threshold '
@@ -77,7 +92,8 @@ def check(an, rep, tier):
                     if o.kind != 'ret':
                         continue
                     for nm_, v_ in o.env.items():
-                        if isinstance(v_, AV_) and v_.k == 'arr' and \
+                        if nm_ in _RUNNING and isinstance(v_, AV_) and \
+                                v_.k == 'arr' and \
                                 v_.dims is not None and len(v_.dims) == 2 \
                                 and v_.dt != 'i' and v_.lg is not None:
                             got.append(v_)
